@@ -95,38 +95,41 @@ func roundA(rng *rand.Rand, sample bool) {
 			}
 		}(q)
 	}
-	// readers
-	wg.Add(1)
-	go func() {
-		defer wg.Done()
-		r := rand.New(rand.NewSource(rng.Int63()))
-		for !done.Load() {
-			func() {
-				defer guard("Peek/Len/Values")
-				id := uint64(1 + r.Intn(P*n))
-				v, err := s.Peek(id)
-				if err == nil {
-					if want, ok := idval.Load(id); ok && want.(int) != v {
-						fail("monitor", fmt.Sprintf("Peek(%d) returned %d, pushed under that id: %d", id, v, want))
+	// readers: several at once, so that anything Values/Peek/Len write under the read lock is seen by the race detector
+	for rd := 0; rd < 3; rd++ {
+		readerSeed := rng.Int63()
+		wg.Add(1)
+		go func() {
+			defer wg.Done()
+			r := rand.New(rand.NewSource(readerSeed))
+			for !done.Load() {
+				func() {
+					defer guard("Peek/Len/Values")
+					id := uint64(1 + r.Intn(P*n))
+					v, err := s.Peek(id)
+					if err == nil {
+						if want, ok := idval.Load(id); ok && want.(int) != v {
+							fail("monitor", fmt.Sprintf("Peek(%d) returned %d, pushed under that id: %d", id, v, want))
+						}
+					} else if err.Error() != "Not Found" {
+						fail("monitor", "Peek error is not NotFound: "+err.Error())
 					}
-				} else if err.Error() != "Not Found" {
-					fail("monitor", "Peek error is not NotFound: "+err.Error())
-				}
-				if l := s.Len(); l < 0 || l > P*n {
-					fail("monitor", fmt.Sprintf("Len()=%d out of range", l))
-				}
-				vs := s.Values()
-				seen := map[int]bool{}
-				for _, x := range vs {
-					if x == 0 || seen[x] {
-						fail("monitor", fmt.Sprintf("Values() contains zero/duplicate %d", x))
+					if l := s.Len(); l < 0 || l > P*n {
+						fail("monitor", fmt.Sprintf("Len()=%d out of range", l))
 					}
-					seen[x] = true
-				}
-			}()
-			time.Sleep(50 * time.Microsecond)
-		}
-	}()
+					vs := s.Values()
+					seen := map[int]bool{}
+					for _, x := range vs {
+						if x == 0 || seen[x] {
+							fail("monitor", fmt.Sprintf("Values() contains zero/duplicate %d", x))
+						}
+						seen[x] = true
+					}
+				}()
+				time.Sleep(50 * time.Microsecond)
+			}
+		}()
+	}
 	// wait for pushers+poppers (poppers stop once pushers are finished and a Pop returned zero)
 	go func() {
 		for pushersLeft.Load() != 0 {
